@@ -683,6 +683,12 @@ def gen_cases(tier, rng):
     rit = raw_in_table_texts()
     for t in _c06_texts() + RELATION_TEXTS + dispatcher_texts() + (rit if not quick else rit[::2]):
         texts.append((t, None))
+    # foreign elements with HTML-significant local names above an integration point; CDATA edge cases
+    fnt = tb.foreign_named_texts()
+    for t, c in (fnt if not quick else fnt[::8]):
+        texts.append((t, c))
+    for t in tb.cdata_edge_texts():
+        texts.append((t, None))
     # fragment parsing of text-only contexts: their own end tag is ordinary text there
     for cx in ("title", "textarea", "style", "xmp", "iframe", "noembed", "noframes", "script", "noscript", "plaintext"):
         for t in ("a</%s><b>c" % cx, "</%s>" % cx, "x<!--</%s>-->y</%s >z" % (cx, cx), "<%s>q</%s>r" % (cx, cx)):
